@@ -88,14 +88,16 @@ End Statements.
 Theorem C09_okb_spec : forall c : case,
   okb c = true <->
   (forall r, In r (c_rows c) -> r_tree r <> None)
-  /\ (forall o n, In (o, n) (c_keep c) ->
+  /\ (out_of_statement c = false ->
+      forall o n, In (o, n) (c_keep c) ->
         let t := ext_table c (length (c_rows c)) in
         tab_tree t (N.to_nat n) = tab_tree t (N.to_nat o)).
 Proof. exact okb_spec. Qed.
 
-(** Known class "conflict sides reordered": a partial squash out of a conflicted commit can
-    return the same conflict with its sides in another order (observed on the
-    implementation; here on the model). *)
+(** Observation (outside the statement, which speaks of squashing a whole commit): a partial
+    squash out of a conflicted commit can return the same conflict with its sides in another
+    order (observed on the implementation; here on the model). The kept-trees clause of the
+    checker does not apply to such cases. *)
 Definition q_f (i : N) (c : N) : value := File i true c.
 Definition q_t3 : tree := [(0, Tree [(1, q_f 0 0)])]%N.
 Definition q_t5 : tree := [(0, Tree [(1, q_f 0 1)])]%N.
